@@ -45,6 +45,7 @@ type E struct {
 	X, Y  *E
 	Field string
 	Args  []*E
+	Pkg   bool // a call of a package-level function (whatever the helpers of the group are called)
 }
 
 func ident(n string) *E            { return &E{K: "ident", Name: n} }
@@ -117,6 +118,25 @@ func (e *E) subst(ps map[string]*E) *E {
 	return &c
 }
 
+// hasNamedConst: the expression names a constant (an identifier that go/types folds)
+func (e *E) hasNamedConst() bool {
+	if e == nil {
+		return false
+	}
+	if e.K == "ident" && e.C != nil {
+		return true
+	}
+	if e.X.hasNamedConst() || e.Y.hasNamedConst() {
+		return true
+	}
+	for _, a := range e.Args {
+		if a.hasNamedConst() {
+			return true
+		}
+	}
+	return false
+}
+
 func coqStr(s string) string {
 	ok := true
 	for i := 0; i < len(s); i++ {
@@ -176,6 +196,9 @@ type fileCase struct {
 	blankFirst bool // ... in front of a named one
 	constBody  bool // a helper body refers to a named constant
 	shadowBody bool // ... declared in the group and shadowing a package-level constant of another value
+	pkgBefore  bool // a helper calls a package-level function; a LATER helper of the same group carries that function's name
+	higher     bool // a helper takes another helper as an argument and calls it
+	higherName bool // ... through a parameter spelled like a helper of the group
 }
 
 // package-level constants; several are named like helper parameters
@@ -435,7 +458,7 @@ func inlineAll(e *E, hs map[string]*helper) *E {
 	if e == nil {
 		return nil
 	}
-	if e.K == "call" && e.X.K == "ident" {
+	if e.K == "call" && e.X.K == "ident" && !e.Pkg {
 		if h := hs[e.X.Name]; h != nil && len(h.params) == len(e.Args) {
 			// parameters first, nested calls afterwards: the names free in a nested helper's body (the matcher) are
 			// not captured by this helper's parameters
@@ -836,6 +859,17 @@ func genFileCase(rng *rand.Rand) fileCase {
 				continue // this group calls the package-level f
 			}
 			h := sc.genHelper(name, hs)
+			// the package-level f(n int), called by a helper that is defined before the group's own f: in Go the name means
+			// the package-level function there (which a filter cannot call: the group has to be rejected)
+			if name != "f" && !pkgCall && rng.Intn(3) == 0 {
+				for _, later := range names[hi+1 : nh] {
+					if later == "f" {
+						h.body = bin("&&", &E{K: "call", X: ident("f"), Args: []*E{intLit("8", 8)}, Pkg: true}, h.body)
+						fc.pkgBefore = true
+						outsideModel = true // the model looks helpers up by name
+					}
+				}
+			}
 			hs = append(hs, h)
 			hmap[name] = h
 			if definedBefore[name] {
@@ -847,7 +881,7 @@ func genFileCase(rng *rand.Rand) fileCase {
 				if e == nil {
 					return
 				}
-				if e.K == "call" && e.X.K == "ident" {
+				if e.K == "call" && e.X.K == "ident" && !e.Pkg {
 					calledBy[e.X.Name] = true
 				}
 				walk(e.X)
@@ -863,6 +897,75 @@ func genFileCase(rng *rand.Rand) fileCase {
 				w := sc.callOf(h)
 				calledBy[h.name] = true
 				g.stmts = append(g.stmts, gstmt{where: w, inlined: inlineAll(w, copyMap(hmap)), report: fmt.Sprintf("%s.r%d $x", g.name, len(g.stmts))})
+			}
+		}
+		// a higher-order helper: a parameter of function type, called in the body; the argument is a one-variable helper of the
+		// group; the parameter is spelled like nothing else, like one of the helpers of the group (in Go it hides that
+		// helper), or like the higher-order helper itself
+		var hoWhere *E
+		if rng.Intn(4) == 0 {
+			simple := func(name string) *helper {
+				otherVar = func() *E { return ident("v") }
+				matcherExpr = func() *E { return ident(sc.matcher) }
+				textInBody = true
+				defer func() { textInBody = false }()
+				h := &helper{name: name, params: []param{{"v", "dsl.Var"}}}
+				// literals only: a named constant in a helper body makes the converter reject the group
+				h.body = atom(rng, ident("v"), func(s string) *E {
+					if rng.Intn(2) == 0 {
+						return rawLit(s)
+					}
+					return strLit(s)
+				}, func(v int64) *E {
+					sp := intLitSpellings(v)
+					return intLit(sp[rng.Intn(len(sp))], v)
+				})
+				for h.body.hasNamedConst() {
+					h.body = call(sel(sel(ident("v"), "Type"), "Is"), strLit(typeNames[rng.Intn(2)]))
+				}
+				return h
+			}
+			pa, pb := simple("pa"), simple("pb")
+			cands := []string{"pred", "pa", "pb", "ck"}
+			for _, h := range hs {
+				cands = append(cands, h.name)
+			}
+			pname := cands[rng.Intn(len(cands))]
+			if rng.Intn(2) == 0 {
+				pname = []string{"pa", "pb"}[rng.Intn(2)]
+			}
+			ck := &helper{name: "ck", params: []param{{pname, "func(dsl.Var) bool"}, {"v", "dsl.Var"}}}
+			if rng.Intn(2) == 0 {
+				ck.params[0], ck.params[1] = ck.params[1], ck.params[0]
+			}
+			ck.body = call(ident(pname), ident("v"))
+			switch rng.Intn(4) {
+			case 0:
+				ck.body = not(ck.body)
+			case 1:
+				ck.body = bin("||", ck.body, sel(ident("v"), "Const"))
+			case 2:
+				ck.body = bin("&&", sel(ident("v"), "Pure"), ck.body)
+			}
+			defs := []*helper{pa, pb, ck}
+			if rng.Intn(3) == 0 { // the helper whose name the parameter may carry is defined after the higher-order helper
+				defs = []*helper{pb, ck, pa}
+			}
+			for _, h := range defs {
+				hmap[h.name] = h
+				g.stmts = append(g.stmts, gstmt{def: h})
+			}
+			arg := []string{"pa", "pb"}[rng.Intn(2)]
+			ckArgs := []*E{ident(arg), sc.mvar("x")}
+			if ck.params[0].typ == "dsl.Var" {
+				ckArgs[0], ckArgs[1] = ckArgs[1], ckArgs[0]
+			}
+			// both one-variable helpers are used (Go rejects unused local functions)
+			hoWhere = bin([]string{"&&", "||"}[rng.Intn(2)], call(ident("ck"), ckArgs...),
+				bin("||", call(ident("pa"), sc.mvar("y")), call(ident("pb"), sc.mvar("y"))))
+			fc.higher = true
+			if pname != "pred" {
+				fc.higherName = true
 			}
 		}
 		// the last rule calls every helper nobody else calls (Go rejects unused local functions)
@@ -883,6 +986,13 @@ func genFileCase(rng *rand.Rand) fileCase {
 		}
 		if where == nil && len(hs) > 0 {
 			where = sc.callOf(hs[len(hs)-1])
+		}
+		if hoWhere != nil {
+			if where == nil {
+				where = hoWhere
+			} else {
+				where = bin([]string{"&&", "||"}[rng.Intn(2)], paren(hoWhere), where)
+			}
 		}
 		// the same helper called again with other arguments (the template must survive an expansion unchanged)
 		if len(hs) > 0 && rng.Intn(3) == 0 {
@@ -1090,6 +1200,11 @@ type Case struct {
 	BlankF  bool   `json:"blank_first"`     // ... followed by a named one
 	ConstB  bool   `json:"const_body"`      // a helper body refers to a named constant
 	ShadowB bool   `json:"shadow_body"`     // ... that is declared in the group and shadows a package-level one
+	PkgBef  bool   `json:"pkg_before"`      // a helper calls a package-level function whose name a later helper of the group carries
+	TwinRej bool   `json:"twin_rejected"`   // fixed catalogue: Go's reading of the group is itself not a loadable rule
+	Higher  bool   `json:"higher_order"`    // a helper takes another helper as an argument and calls it
+	HigherN bool   `json:"higher_named"`    // ... through a parameter spelled like a helper of the group
+	GConst  bool   `json:"group_consts"`    // const case: several groups declare equal-named constants with other values
 	Outside bool   `json:"outside_model"`   // uses Type.IdenticalTo / Filter, whose argument the Coq skeleton does not model
 	Fixed   string `json:"fixed,omitempty"` // a case of the fixed catalogue (twins.go)
 	Spell   string `json:"spelling,omitempty"`
@@ -1117,6 +1232,7 @@ func main() {
 	seed := flag.Int64("seed", 1, "PRNG seed")
 	nh := flag.Int("helpers", 200, "helper cases")
 	nc := flag.Int("consts", 120, "constant spelling cases")
+	ng := flag.Int("gconsts", 30, "cases of equal-named constants in several groups")
 	tmp := flag.String("tmp", "", "scratch directory")
 	child := flag.Bool("child", false, "internal: generate and observe (run by the supervisor)")
 	skip := flag.Int("skip", 0, "internal: generate but do not observe the cases up to this id")
@@ -1145,7 +1261,7 @@ func main() {
 	id := 0
 	for _, tw := range fixedTwins {
 		id++
-		c := Case{Kind: "helper", ID: id, Groups: 1, Fixed: tw.name}
+		c := Case{Kind: "helper", ID: id, Groups: 1 + len(tw.more), Fixed: tw.name, TwinRej: tw.rejected}
 		c.SrcA, c.SrcB = tw.render(false), tw.render(true)
 		if !announce(&c) {
 			continue
@@ -1153,7 +1269,7 @@ func main() {
 		c.A = observe(t, c.SrcA)
 		c.B = observe(t, c.SrcB)
 		c.IREqual = c.A.IR != "" && c.A.IR == c.B.IR
-		if !strings.Contains(tw.helper, "m[name]") { // the model assumes that the matcher is indexed by a literal ([consistent])
+		if !strings.Contains(tw.helper, "m[name]") && !tw.rejected { // the model assumes that the matcher is indexed by a literal ([consistent]) and looks helpers up by name
 			c.Model = modelOf(c.SrcA)
 		}
 		enc.Encode(c)
@@ -1175,6 +1291,8 @@ func main() {
 		c.Groups, c.Same, c.PkgFunc, c.Unhyg, c.Nested, c.PNamed, c.Octal = len(fc.groups), fc.sameName, fc.pkgFunc, fc.unhyg, fc.nested, fc.paramNamed, fc.octal
 		c.Twice = fc.twice
 		c.Blank, c.BlankF, c.ConstB, c.ShadowB = fc.blank, fc.blankFirst, fc.constBody, fc.shadowBody
+		c.Higher, c.HigherN, c.PkgBef = fc.higher, fc.higherName, fc.pkgBefore
+		c.Outside = outsideModel
 		if !outsideModel {
 			c.Model = modelOf(c.SrcA)
 		}
@@ -1235,5 +1353,103 @@ func main() {
 		enc.Encode(c)
 		stdout.Flush()
 	}
+	// several groups of one file spell their Where() alike over equal-named constants with other values
+	for i := 0; i < *ng; i++ {
+		id++
+		c := Case{Kind: "const", ID: id, GConst: true, Spell: "equal-named constants in several groups"}
+		c.SrcA, c.SrcB, c.Groups = genGroupConsts(rng)
+		if !announce(&c) {
+			continue
+		}
+		c.A = observe(t, c.SrcA)
+		c.B = observe(t, c.SrcB)
+		c.IREqual = c.A.IR != "" && c.A.IR == c.B.IR
+		enc.Encode(c)
+		stdout.Flush()
+	}
 	_ = reflect.DeepEqual
+}
+
+// genGroupConsts: one Where() text over the constant names kT (a type), kN (a size), kV (a value), kP (a text), used by every
+// group of the file; every group gives the names its own values -- by declaring them, or by leaving them to the package level.
+// Twin: the same file with the values written as literals.
+func genGroupConsts(rng *rand.Rand) (withConsts, literal string, ngroups int) {
+	kT, kN, kV, kP := cident("kT", nil), cident("kN", nil), cident("kV", nil), cident("kP", nil)
+	v := func() *E { return mvar(probeVars[rng.Intn(2)]) }
+	one := func() *E {
+		switch rng.Intn(12) {
+		case 0, 1:
+			return call(sel(sel(v(), "Type"), "Is"), kT)
+		case 2:
+			return not(call(sel(sel(v(), "Type"), "Is"), kT))
+		case 3:
+			return bin("==", sel(sel(v(), "Type"), "Size"), kN)
+		case 4:
+			return bin(">=", sel(sel(v(), "Type"), "Size"), kN)
+		case 5:
+			return bin("==", kN, sel(sel(v(), "Type"), "Size"))
+		case 6:
+			return bin("==", call(sel(sel(v(), "Value"), "Int")), kV)
+		case 7:
+			return bin("<", call(sel(sel(v(), "Value"), "Int")), kV)
+		case 8:
+			return call(sel(sel(v(), "Text"), "Matches"), kP)
+		case 9:
+			return bin("==", sel(v(), "Text"), kP)
+		case 10:
+			return call(sel(call(sel(sel(v(), "Type"), "Underlying")), "Is"), kT)
+		default:
+			return call(sel(sel(v(), "Type"), "ConvertibleTo"), kT)
+		}
+	}
+	where := one()
+	for k := rng.Intn(3); k > 0; k-- {
+		where = bin([]string{"&&", "||"}[rng.Intn(2)], where, one())
+		if rng.Intn(3) == 0 {
+			where = paren(where)
+		}
+	}
+	// an equal-named helper over the same names in a third of the files
+	withHelper := rng.Intn(3) == 0
+	ngroups = 2 + rng.Intn(2)
+	types_, sizes_, vals, pats := []string{"int64", "int32", "int16"}, []int64{8, 4, 2}, []int64{420, 512, 64, 8, 644, 1000, 100, 10}, []string{"a8", "a4", "a2", "b8"}
+	pkg := []int{rng.Intn(3), rng.Intn(3), rng.Intn(len(vals)), rng.Intn(len(pats))}
+	var a, b strings.Builder
+	head := "package gorules\n\nimport \"github.com/quasilyte/go-ruleguard/dsl\"\n\n"
+	a.WriteString(head + fmt.Sprintf("const (\n\tkT = %q\n\tkN = %d\n\tkV = %d\n\tkP = %q\n)\n\n", types_[pkg[0]], sizes_[pkg[1]], vals[pkg[2]], pats[pkg[3]]))
+	b.WriteString(head)
+	first := []int{rng.Intn(3), rng.Intn(3), rng.Intn(len(vals)), rng.Intn(len(pats))}
+	for g := 0; g < ngroups; g++ {
+		// the values of this group: other ones than the previous group's; the last group may repeat the first group's
+		val := []int{(first[0] + g) % 3, (first[1] + g) % 3, (first[2] + g) % len(vals), (first[3] + g) % len(pats)}
+		if g == ngroups-1 && g > 1 && rng.Intn(2) == 0 {
+			val = first
+		}
+		var decls []string
+		for k, d := range []string{fmt.Sprintf("const kT = %q", types_[val[0]]), fmt.Sprintf("const kN = %d", sizes_[val[1]]),
+			fmt.Sprintf("const kV = %d", vals[val[2]]), fmt.Sprintf("const kP = %q", pats[val[3]])} {
+			if rng.Intn(5) == 0 { // left to the package level
+				val[k] = pkg[k]
+				continue
+			}
+			decls = append(decls, "\t"+d+"\n")
+		}
+		lits := map[string]*E{"kT": strLit(types_[val[0]]), "kN": intLit(fmt.Sprint(sizes_[val[1]]), sizes_[val[1]]),
+			"kV": intLit(fmt.Sprint(vals[val[2]]), vals[val[2]]), "kP": strLit(pats[val[3]])}
+		wa, wb := where.src(), where.subst(lits).src()
+		ha := ""
+		if withHelper {
+			// (a constant named inside a helper body makes the converter reject the group: the constants are arguments)
+			body := bin("||", call(sel(sel(ident("v"), "Type"), "Is"), ident("s")), bin("==", sel(sel(ident("v"), "Type"), "Size"), ident("n")))
+			ha = "\tf := func(v dsl.Var, s string, n int) bool { return " + body.src() + " }\n"
+			wa = "f(m[\"y\"], kT, kN) && (" + wa + ")"
+			wb = "(" + body.subst(map[string]*E{"v": mvar("y"), "s": lits["kT"], "n": lits["kN"]}).src() + ") && (" + wb + ")"
+		}
+		rule := func(w string) string {
+			return fmt.Sprintf("\tm.Match(`$x + $y`).\n\t\tWhere(%s).\n\t\tReport(`g%d hit $x`)\n", w, g)
+		}
+		fmt.Fprintf(&a, "func g%d(m dsl.Matcher) {\n%s%s%s}\n\n", g, strings.Join(decls, ""), ha, rule(wa))
+		fmt.Fprintf(&b, "func g%d(m dsl.Matcher) {\n%s}\n\n", g, rule(wb))
+	}
+	return a.String(), b.String(), ngroups
 }
